@@ -2,13 +2,15 @@
 EXTENDS Integers, Sequences, TLC, Json, IOUtils
 CONSTANTS Vouchers, BackDenoms, HookReturnsAck
 Trace == ndJsonDeserialize(IOEnv.TRACE_FILE)
-VARIABLES l, enabled, vbal, esc, sup, tok, registered, pairon, ext, xreg, xbad, mx, out, last,
+VARIABLES l, enabled, vbal, esc, sup, tok, registered, pairon, ext, xreg, xbad, mx, out, nesc, xdead, last,
+          nbal,   \* the receiver's balance of this chain's own coin (units)
           gOn, gPair   \* ground truth kept by the trace: what governance set the module switch to, and the per-pair switch as its proposals left it
 AmtClasses == {}
 RecvClasses == {}
+NatMax == 0
 INSTANCE ICS20
 ln(k) == Trace[k]
-TInit == l = 0 /\ enabled = TRUE /\ vbal = <<>> /\ esc = <<>> /\ sup = <<>> /\ tok = <<>> /\ registered = <<>> /\ pairon = <<>> /\ ext = <<>> /\ xreg = FALSE /\ xbad = FALSE /\ mx = 0 /\ out = <<>> /\ gOn = TRUE /\ gPair = [d \in Vouchers |-> FALSE] /\ last = [act |-> "None", res |-> "ok"]
+TInit == l = 0 /\ enabled = TRUE /\ vbal = <<>> /\ esc = <<>> /\ sup = <<>> /\ tok = <<>> /\ registered = <<>> /\ pairon = <<>> /\ ext = <<>> /\ xreg = FALSE /\ xbad = FALSE /\ mx = 0 /\ out = <<>> /\ nesc = 0 /\ xdead = FALSE /\ nbal = 0 /\ gOn = TRUE /\ gPair = [d \in Vouchers |-> FALSE] /\ last = [act |-> "None", res |-> "ok"]
 Report(k, name, holds) == holds \/ PrintT(<<"VIOL", k, name>>)
 IsStep(k) == ln(k).ev # "Reset"
 A(k) == ln(k).args
@@ -44,6 +46,13 @@ Judge(k) ==
         /\ IF A(k).outcome = "success" THEN UNCHANGED <<vbal, sup>>
            ELSE vbal' = [vbal EXCEPT ![D(k)] = @ + out[D(k)]] /\ sup' = [sup EXCEPT ![D(k)] = @ + out[D(k)]]
         /\ UNCHANGED <<esc, tok>>)
+  (* returning native coins: the transfer application's acknowledgement is the one committed; a successful receive releases exactly *)
+  (* the amount from the escrow to the receiver; a refused one moves nothing; no voucher, token or pair is touched either way        *)
+  /\ Report(k, "C16.NatAckPreserved", ln(k).ev = "RecvNat" => (ln(k).ack.stored # "none" /\ ln(k).ack.same))
+  /\ Report(k, "C16.NatSuccessAcked", (ln(k).ev = "RecvNat" /\ ln(k).wrapped_success) => ln(k).ack.stored = ln(k).ack.wrapped)
+  /\ Report(k, "C16.NatReleasedExactly", ln(k).ev = "RecvNat" =>
+        /\ UNCHANGED <<vbal, esc, sup, tok>>
+        /\ IF ln(k).wrapped_success THEN nesc' = nesc - N(k) /\ nbal' = nbal + N(k) ELSE nesc' = nesc /\ nbal' = nbal)
   /\ Report(k, "C16.SettledAtMostOnce", (ln(k).ev = "Settle" /\ ln(k).res = "ok") => (out[D(k)] > 0 /\ ~ln(k).again))
   /\ Report(k, "C16.FailedSettleNoEffect", (ln(k).ev = "Settle" /\ ln(k).res # "ok") => UNCHANGED <<vbal, sup, esc, tok>>)
 C_Step(k) ==
@@ -57,6 +66,9 @@ C_Step(k) ==
     [] ln(k).ev = "AddExt" -> AddExtEff(D(k)) /\ (ln(k).res = "ok") = AddExtOK(D(k))
     [] ln(k).ev = "Fund" -> FundEff(A(k).n)
     [] ln(k).ev = "SendBack" -> SendBackEff(D(k), A(k).amt) /\ (ln(k).res = "ok") = SendBackOK(D(k), A(k).amt)
+    [] ln(k).ev = "DestroyExt" -> DestroyExtEff
+    [] ln(k).ev = "SendNat" -> SendNatEff(A(k).amt) /\ (ln(k).res = "ok") = SendNatOK(A(k).amt)
+    [] ln(k).ev = "RecvNat" -> RecvNatEff(A(k).amt, A(k).recv) /\ ln(k).wrapped_success = NatTransferOK(A(k).amt, A(k).recv)
     [] ln(k).ev = "Settle" -> SettleEff(D(k), A(k).outcome) /\ (ln(k).res = "ok") = SettleOK(D(k))
     [] OTHER -> FALSE
 Conform(k) == IsStep(k) => (C_Step(k) \/ PrintT(<<"DRIFT", k, ln(k).ev>>))
@@ -64,7 +76,8 @@ F(k, f) == [d \in Vouchers |-> ln(k).st[d][f]]
 TNext == LET k == l + 1 IN
   /\ l < Len(Trace) /\ l' = k
   /\ enabled' = ln(k).st.enabled /\ vbal' = F(k, "vbal") /\ esc' = F(k, "esc") /\ sup' = F(k, "sup") /\ tok' = F(k, "tok")
-  /\ registered' = F(k, "registered") /\ pairon' = F(k, "pairon") /\ ext' = F(k, "ext") /\ xreg' = ln(k).st.xreg /\ xbad' = ln(k).st.xbad /\ mx' = ln(k).st.mx /\ out' = F(k, "out")
+  /\ registered' = F(k, "registered") /\ pairon' = F(k, "pairon") /\ ext' = F(k, "ext") /\ xreg' = ln(k).st.xreg /\ xbad' = ln(k).st.xbad /\ mx' = ln(k).st.mx /\ out' = F(k, "out") /\ nesc' = ln(k).st.nesc /\ nbal' = ln(k).st.nbal
+  /\ xdead' = IF ln(k).ev = "Reset" THEN FALSE ELSE IF ln(k).ev = "DestroyExt" THEN TRUE ELSE xdead      \* what the replay did to the contract
   /\ last' = [act |-> ln(k).ev, res |-> ln(k).res]
   /\ gOn' = IF ln(k).ev = "Reset" THEN TRUE ELSE IF ln(k).ev = "Param" /\ ln(k).res = "ok" THEN ln(k).args.on ELSE gOn
   /\ gPair' = IF ln(k).ev = "Reset" THEN [d \in Vouchers |-> FALSE]
@@ -72,5 +85,5 @@ TNext == LET k == l + 1 IN
               ELSE IF ln(k).ev = "Toggle" /\ ln(k).res = "ok" THEN [gPair EXCEPT ![ln(k).args.denom] = ~@]
               ELSE gPair
   /\ Judge(k) /\ Conform(k)
-TSpec == TInit /\ [][TNext]_<<l, vars, gOn, gPair>>
+TSpec == TInit /\ [][TNext]_<<l, vars, nbal, gOn, gPair>>
 =============================================================================
